@@ -207,6 +207,9 @@ func (c *c04Case) build() (tpl string, data any, wantInst []string, wantElse boo
 		if c.Print == "expr" {
 			return "{{ true ? " + e + " : 0 }}"
 		}
+		if c.Print == "exprcall" { // an operator expression that also calls a registered function
+			return "{{ trim('ab') == 'ab' ? " + e + " : 0 }}"
+		}
 		return "{{ " + e + " }}"
 	}
 	loop := v + " in " + c.Path
@@ -329,7 +332,7 @@ func (c *c04Case) build() (tpl string, data any, wantInst []string, wantElse boo
 }
 
 // loop variable names beyond [A-Za-z0-9]
-var c04Unusual = map[string]bool{"größe": true, "élément": true, "項": true, "_x": true, "it2": true, "$v": true, "last": true, "type": true, "key": true}
+var c04Unusual = map[string]bool{"größe": true, "élément": true, "項": true, "_x": true, "it2": true, "$v": true, "last": true, "type": true, "key": true, "title": true, "file": true, "default": true, "json": true, "len": true, "upper": true}
 
 // --- body part: every way a loop body can consume the item, differential against one-item loops
 
@@ -677,6 +680,20 @@ func init() {
 				}
 			}
 			// spelling part: loop-variable names beyond ASCII letters and the documented spellings of the (i, v) form
+			// ... and names of registered functions, printed from an expression that calls one
+			for _, v := range []string{"title", "file", "default", "json", "len", "upper", "type"} {
+				for _, form := range []string{"x", "ix"} {
+					for _, coll := range []string{"strings", "structs"} {
+						for n := 0; n <= 2; n++ {
+							for _, elem := range []string{"plain", "vif", "bind", "tmpl"} {
+								for _, pr := range []string{"must", "expr", "exprcall"} {
+									emit(&c04Case{Coll: coll, Len: n, Path: "xs", Form: form, Var: v, Else: "adj", Elem: elem, Root: "map", Print: pr, Entry: "string"})
+								}
+							}
+						}
+					}
+				}
+			}
 			for _, v := range []string{"größe", "élément", "項", "_x", "it2", "$v", "last", "type", "key"} {
 				for _, form := range []string{"x", "ix", "ixtight", "ixpad"} {
 					for _, coll := range []string{"strings", "structs"} {
